@@ -36,3 +36,130 @@ Proof.
   intros ls s H. change (inv_alive s). eapply lrun_inv; [exact inv_alive_step| |exact H].
   unfold inv_alive; simpl; discriminate.
 Qed.
+
+(* ---------- C18, first use after a Cancel: a fresh instance ---------- *)
+Open Scope Z_scope.
+
+(* after Cancel(k) no instance of key k is left that is not done *)
+Lemma cancel_all_done s k : valid s ->
+  forall c x, nth_error (conns (ext s (ACancelKey k))) c = Some x -> c_key x = k -> c_done x = true.
+Proof.
+  intros V c x Hx Hk. cbn [ext] in Hx.
+  destruct (find_reg k (conns s) 0) as [c0|] eqn:F.
+  - destruct (find_reg0_some _ _ _ F) as (x0 & Hx0 & Hr0 & Hk0). rewrite Hx0 in Hx. cbn [conns] in Hx.
+    rewrite nth_upd in Hx. destruct (Nat.eqb_spec c0 c) as [->|Hne].
+    + destruct (Nat.ltb_spec c (length (conns s))); [|discriminate]. inversion Hx; subst x. reflexivity.
+    + (* another instance with key k: it is done, by uniqueness *)
+      destruct (c_done x) eqn:D; [reflexivity|exfalso].
+      pose proof (v_conn _ V _ _ Hx0) as R0. rewrite Hr0 in R0.
+      assert (D0 : c_done x0 = false) by (destruct (c_done x0); [discriminate|reflexivity]).
+      destruct (Nat.lt_ge_cases c c0) as [Hlt|Hge].
+      * pose proof (v_uniq _ V c c0 x x0 Hx Hx0 (eq_trans Hk (eq_sym Hk0)) Hlt). congruence.
+      * assert (Hlt : (c0 < c)%nat) by lia.
+        pose proof (v_uniq _ V c0 c x0 x Hx0 Hx (eq_trans Hk0 (eq_sym Hk)) Hlt). congruence.
+  - pose proof (find_reg_none _ _ _ F x (nth_error_In _ _ Hx)) as N.
+    pose proof (v_conn _ V _ _ Hx) as R. destruct (c_done x); [reflexivity|]. cbn in R. exfalso. apply (N R Hk).
+Qed.
+
+Lemma app_self_nil {A} (l e : list A) : l = l ++ e -> e = [].
+Proof. intros H. apply (f_equal (@length A)) in H. rewrite app_length in H. destruct e; [reflexivity|simpl in H; lia]. Qed.
+
+(* the instance an envelope is routed to is live (not cancelled) at the moment of the routing, and carries the envelope's key *)
+Lemma shread_live s l s' : valid s -> lstep s l = Some s' ->
+  forall evs, log s' = log s ++ evs -> forall c e, In (EvShRead c e) evs ->
+  exists x, nth_error (conns s') c = Some x /\ c_key x = ekey e /\ c_done x = false.
+Proof.
+  intros V H evs Hlog c e Hin.
+  pose proof H as H0. apply lstep_kind in H0. destruct H0 as [a H0|H0|H0|H0|H0|i H0|i H0|i H0|i H0|n H0|n H0].
+  - subst s'. rewrite ext_log in Hlog. apply app_self_nil in Hlog. subst evs. destruct Hin.
+  - unfold r_rn_read in H0; open_rule H0; simpl in *; apply app_inv_head in Hlog; subst evs; simpl in Hin.
+    + destruct Hin as [Hin|[]]. inversion Hin; subst.
+      destruct (find_reg0_some _ _ _ E1) as (x & Hx & Hr & Hk). exists x. split; [exact Hx|]. split; [exact Hk|].
+      pose proof (v_conn _ V _ _ Hx) as R. rewrite Hr in R. destruct (c_done x); [discriminate|reflexivity].
+    + destruct Hin as [Hin|[Hin|[]]]; [discriminate|]. inversion Hin; subst.
+      exists (mkConn (ekey e) true false DWSel). split; [apply nth_app_last|]. split; reflexivity.
+  - unfold r_rn_readerr in H0; open_rule H0. simpl in Hlog. apply app_self_nil in Hlog. subst evs. destruct Hin.
+  - unfold r_rn_hand_done in H0; open_rule H0; simpl in *; apply app_inv_head in Hlog; subst evs; simpl in Hin;
+      intuition discriminate.
+  - unfold r_rn_hand_stop in H0; open_rule H0; simpl in *; apply app_inv_head in Hlog; subst evs; simpl in Hin;
+      intuition discriminate.
+  - unfold r_read_rdv in H0; open_rule H0; simpl in *; apply app_inv_head in Hlog; subst evs; simpl in Hin;
+      intuition discriminate.
+  - unfold r_call_ctx in H0; open_rule H0; simpl in *; apply app_inv_head in Hlog; subst evs; simpl in Hin;
+      intuition discriminate.
+  - unfold r_call_done in H0; open_rule H0; simpl in *; apply app_inv_head in Hlog; subst evs; simpl in Hin;
+      intuition discriminate.
+  - unfold r_write_rdv in H0; open_rule H0; simpl in *; apply app_inv_head in Hlog; subst evs; simpl in Hin;
+      intuition discriminate.
+  - unfold r_dw_exit in H0; open_rule H0; simpl in *. apply app_self_nil in Hlog. subst evs. destruct Hin.
+  - unfold r_dw_write in H0; open_rule H0; simpl in *; apply app_inv_head in Hlog; subst evs; simpl in Hin;
+      intuition discriminate.
+Qed.
+
+(* what holds from a Cancel(k) on: n0 = number of instances at the Cancel, l0 = the log at the Cancel *)
+Definition inv_fresh (n0 : nat) (k : Z) (l0 : list dev) (s : state) : Prop :=
+  valid s /\ (n0 <= length (conns s))%nat /\
+  (forall c x, (c < n0)%nat -> nth_error (conns s) c = Some x -> c_key x = k -> c_done x = true) /\
+  exists evs, log s = l0 ++ evs /\ forall c e, In (EvShRead c e) evs -> ekey e = k -> (n0 <= c)%nat.
+
+Lemma inv_fresh_step n0 k l0 s l s' : inv_fresh n0 k l0 s -> lstep s l = Some s' -> inv_fresh n0 k l0 s'.
+Proof.
+  intros (V & Hlen & Hold & evs & Hlog & Hnew) H.
+  assert (V' : valid s') by (eapply valid_step; eauto).
+  assert (Hlen' : (n0 <= length (conns s'))%nat).
+  { destruct (conns_length_step _ _ _ H) as [E|[E _]]; lia. }
+  assert (Hold' : forall c x, (c < n0)%nat -> nth_error (conns s') c = Some x -> c_key x = k -> c_done x = true).
+  { intros c x' Hc Hx' Hk.
+    destruct (nth_error (conns s) c) as [x|] eqn:Hx.
+    - destruct (key_stable _ _ _ _ _ H Hx) as (x'' & Hx'' & Hk''). rewrite Hx' in Hx''. inversion Hx''; subst x''.
+      assert (D : conn_done s c = true). { unfold conn_done. rewrite Hx. apply (Hold c x Hc Hx). congruence. }
+      pose proof (done_mono _ _ _ _ H D) as D'. unfold conn_done in D'. rewrite Hx' in D'. exact D'.
+    - apply nth_error_None in Hx. lia. }
+  split; [exact V'|]. split; [exact Hlen'|]. split; [exact Hold'|].
+  destruct (log_grows _ _ _ H) as (evs2 & Hlog2). exists (evs ++ evs2). split.
+  - rewrite Hlog2, Hlog. symmetry. apply app_assoc.
+  - intros c e Hin Hk. apply in_app_or in Hin. destruct Hin as [Hin|Hin]; [eauto|].
+    destruct (shread_live _ _ _ V H evs2 Hlog2 c e Hin) as (x & Hx & Hkx & Hd).
+    destruct (Nat.lt_ge_cases c n0) as [Hlt|Hge]; [|exact Hge].
+    rewrite (Hold' c x Hlt Hx (eq_trans Hkx Hk)) in Hd. discriminate.
+Qed.
+
+Lemma cancel_conns_length s k : length (conns (ext s (ACancelKey k))) = length (conns s).
+Proof.
+  cbn [ext]. destruct (find_reg k (conns s) 0); [|reflexivity]. destruct (nth_error (conns s) n); [|reflexivity].
+  cbn [conns]. apply length_upd.
+Qed.
+
+(* After Cancel(k) has been processed, every envelope with key k that the run loop reads is routed to an instance
+   created AFTER the Cancel (its index is at least the number of instances that existed at the Cancel): never to
+   the cancelled one, whatever happens in between (no envelope of another key is needed to "flush" anything).
+   The instance exists - so it was announced, once, in creation order (announce_once) - carries the key, and was
+   live when the envelope was routed to it (shread_live). *)
+Theorem after_cancel_fresh s : reachable s -> forall k ls' s', lrun (ext s (ACancelKey k)) ls' = Some s' ->
+  exists evs, log s' = log s ++ evs /\
+    forall c e, In (EvShRead c e) evs -> ekey e = k ->
+      (length (conns s) <= c)%nat /\ exists x, nth_error (conns s') c = Some x /\ c_key x = k.
+Proof.
+  intros R k ls' s' Hrun.
+  pose proof (reachable_valid _ R) as V.
+  assert (V0 : valid (ext s (ACancelKey k))) by (apply (valid_step s (LExt (ACancelKey k))); [exact V|reflexivity]).
+  assert (I0 : inv_fresh (length (conns s)) k (log s) (ext s (ACancelKey k))).
+  { split; [exact V0|]. split; [rewrite cancel_conns_length; lia|]. split.
+    - intros c x _ Hx Hk. exact (cancel_all_done s k V c x Hx Hk).
+    - exists []. rewrite ext_log, app_nil_r. split; [reflexivity|]. intros c e []. }
+  pose proof (lrun_inv (inv_fresh (length (conns s)) k (log s)) (inv_fresh_step _ _ _) ls' _ _ I0 Hrun)
+    as (V' & _ & _ & evs & Hlog & Hnew).
+  exists evs. split; [exact Hlog|]. intros c e Hin Hk. split; [eauto|].
+  assert (R' : reachable s').
+  { apply (reachable_lrun s (LExt (ACancelKey k) :: ls') s' R). cbn [lrun lstep]. exact Hrun. }
+  destruct (route_key _ R' c e) as (x & Hx & Hkx).
+  { rewrite Hlog. apply in_or_app. right. exact Hin. }
+  exists x. split; [exact Hx|congruence].
+Qed.
+
+Lemma C18_after_cancel_fresh_l : forall ls s, lrun init ls = Some s ->
+  forall k ls' s', lrun (ext s (ACancelKey k)) ls' = Some s' ->
+  exists evs, log s' = log s ++ evs /\
+    forall c e, In (EvShRead c e) evs -> ekey e = k ->
+      (length (conns s) <= c)%nat /\ exists x, nth_error (conns s') c = Some x /\ c_key x = k.
+Proof. intros ls s H. apply after_cancel_fresh. exists ls. exact H. Qed.
